@@ -46,7 +46,7 @@ theorem sumV_ge {f : V → Nat} {vs : List V} {v : V} (h : v ∈ vs) : f v ≤ s
     · have := ih h'; simp only [sumV] at this; omega
 
 /-- holds the internal mutex -/
-def fM (v : V) : Nat := match v.pc with | .rlC | .lkI | .lkC | .ruC | .ulC | .dead => 1 | _ => 0
+def fM (v : V) : Nat := match v.pc with | .rlC | .lkI | .lkC | .ruC | .ulC => 1 | _ => 0
 /-- counted in `pendingWriters` -/
 def fPend (v : V) : Nat := match v.pc with | .lkC | .lkP | .lkR => 1 | _ => 0
 def fPW (v : V) : Nat := match v.pc with | .lkP => 1 | _ => 0
